@@ -3,6 +3,7 @@
    "whether arguments are passed positionally or by name" irrelevant) and about the definitional
    interpreter `Eval` that the correspondence run compares the real evaluator with. -/
 import JrsVerif.Proofs.Bind
+import JrsVerif.Proofs.BindPrepared
 import JrsVerif.Model.Eval
 import JrsVerif.Proofs.EvalBind
 import JrsVerif.Proofs.EvalMono
@@ -381,6 +382,61 @@ theorem call_style_invariant {V : Type} (ps : List Param) (hnd : (names ps).Nodu
     cases p.2 <;> simp [valueOf]
 
 end JrsVerif.Bind
+
+/-! ### The prepared call path (top-level arguments, callbacks from builtins) -/
+namespace JrsVerif.BindPrepared
+open JrsVerif.Bind
+
+/-- C01 "whichever way the function is reached": `prepare_call` (function/prepared.rs — the binder
+    behind top-level-argument calls and every callback a builtin makes: `std.map`, `keyF`, native
+    wrappers; model shared with C04 and tied there) gives, read through parameter names, exactly
+    the answer of `parse_function_call` for every parameter list with pairwise different names and
+    every call — same acceptance, same error, same source for every parameter. -/
+theorem prepared_binder_refines (ps : List Param) (hnd : (names ps).Nodup) (npos : Nat)
+    (named : List String) (hfit : npos + named.length < Total.USIZE) :
+    absR ps npos (Total.prepareCall (toT ps) npos named) = parseCall ps npos named :=
+  prepareCall_refines_parseCall ps hnd npos named hfit
+
+/-- hence the prepared binder accepts exactly the calls the language accepts … -/
+theorem prepared_binding_ok_iff (ps : List Param) (hnd : (names ps).Nodup) (npos : Nat)
+    (named : List String) (hfit : npos + named.length < Total.USIZE) :
+    (∃ ops dfl, Total.prepareCall (toT ps) npos named = .ok ops dfl) ↔ SpecOk ps npos named := by
+  rw [← parseCall_ok_iff ps hnd npos named, ← prepared_binder_refines ps hnd npos named hfit]
+  constructor
+  · rintro ⟨ops, dfl, h⟩; exact ⟨_, by rw [h]; rfl⟩
+  · rintro ⟨env, h⟩
+    cases hp : Total.prepareCall (toT ps) npos named with
+    | ok ops dfl => exact ⟨ops, dfl, rfl⟩
+    | err e => rw [hp] at h; simp [absR] at h
+    | panic w => rw [hp] at h; simp [absR] at h
+
+/-- … and gives every parameter the source the language prescribes (positional, the named
+    argument of that name, or its own default). -/
+theorem prepared_binding_assignment (ps : List Param) (hnd : (names ps).Nodup) (npos : Nat)
+    (named : List String) (hfit : npos + named.length < Total.USIZE) (ops : List (Nat × Nat))
+    (dfl : List Nat) (h : Total.prepareCall (toT ps) npos named = .ok ops dfl)
+    (i : Nat) (p : Param) (hp : ps[i]? = some p) :
+    lookup (envOf ps npos ops dfl) p.1 = specSrc npos named i p := by
+  have hr := prepared_binder_refines ps hnd npos named hfit
+  rw [h] at hr
+  exact (parseCall_assignment ps hnd npos named _ hr.symm i p hp).1
+
+/-- and never reaches its `unreachable!()` -/
+theorem prepared_never_unreachable (ps : List Param) (hnd : (names ps).Nodup) (npos : Nat)
+    (named : List String) (hfit : npos + named.length < Total.USIZE) (w : String) :
+    Total.prepareCall (toT ps) npos named ≠ .panic w := by
+  intro h
+  have hr := prepared_binder_refines ps hnd npos named hfit
+  rw [h] at hr
+  exact parseCall_never_unreachable ps hnd npos named hr.symm
+
+/-- non-vacuity: a call mixing one positional, one named and one defaulted parameter -/
+example : Total.prepareCall (toT [("a", false), ("b", true), ("c", false)]) 1 ["c"] = .ok [(2, 0)] [1] ∧
+    envOf [("a", false), ("b", true), ("c", false)] 1 [(2, 0)] [1]
+      = [("a", .pos 0), ("c", .named 0), ("b", .dflt)] := by
+  constructor <;> decide
+
+end JrsVerif.BindPrepared
 
 /-! ### the interpreter (spec side of the correspondence) binds arguments by the same rule -/
 namespace JrsVerif.EvalBind
